@@ -26,6 +26,8 @@ fn main() {
     match stream {
         "hash" => streams::hash::run(&mut out, seed, thorough, replay),
         "id" => streams::id::run(&mut out, seed, thorough, replay),
+        "closest" => streams::closest::run(&mut out, seed, thorough, replay),
+        "rtable" => streams::rtable::run(&mut out, seed, thorough, replay),
         other => {
             eprintln!("unknown stream {other}");
             std::process::exit(2);
